@@ -2,7 +2,9 @@
 (* Import graphs, visibility and initialisation order (C10; parser.go resolveModuleImport, ast/helper.go
    IterateImportedDecls, ast/module.go, compiler VisitImportStmt / module init functions).
    A graph  G = [n : number of modules (0 = the main module),
-                 imp : << per module i+1: sequence of [t : target module, sel : "all" | "pub" | "fn"] >>]
+                 imp : << per module i+1: sequence of [t : target module, sel : "all" | "pub" | "fn", cont : BOOLEAN] >>]
+     "Binde alle Module aus <Verzeichnis> ein" is the whole-module import of every module of the directory in name order: the harness writes
+     it as consecutive entries, all but the first with cont = TRUE (one statement: no marker of the main module between them).
      sel "all" = whole-module import, "pub" / "fn" = selective import of the public variable / public function only.
    Every module k declares (scheme fixed by the harness):
      a private function `helfer` (same name in every module) that prints h<k>,  a public variable wert<k> whose
@@ -36,7 +38,7 @@ InitMod(G, m, st) ==
 RECURSIVE RunMain(_, _, _)
 RunMain(G, k, st) ==
     IF k > Len(G.imp[1]) THEN [st EXCEPT !.out = Append(@, 200)]
-    ELSE RunMain(G, k + 1, InitMod(G, G.imp[1][k].t, [st EXCEPT !.out = Append(@, 100 + k)]))
+    ELSE RunMain(G, k + 1, InitMod(G, G.imp[1][k].t, IF G.imp[1][k].cont THEN st ELSE [st EXCEPT !.out = Append(@, 100 + k)]))
 Run(G) == RunMain(G, 1, [inited |-> {0}, out |-> <<>>]).out
 InitOnceInOrder(G) ==       \* the two facts the property states, as consequences of Run (checked by TLC on every graph)
     LET out == Run(G)
